@@ -734,7 +734,12 @@ class DoIPConnection:
         payload = AliveCheckResponse(
             SourceAddress=self.src_addr,
         )
-        await self.write_request_raw(hdr, payload)
+        # Do not take the mutex here: it is held while a write waits for its ACK and
+        # while a read waits for data, i.e. exactly when the read worker (our caller)
+        # must stay responsive. A single write() call cannot interleave with other frames.
+        self.writer.write(hdr.pack() + payload.pack())
+        await self.writer.drain()
+        logger.trace("Sent DoIP message: hdr: %s, payload: %s", hdr, payload)
 
     async def close(self) -> None:
         logger.debug("Closing DoIP connection...")
